@@ -73,7 +73,7 @@ pub struct Program {
     pub main: Vec<Stmt>,
 }
 
-pub const WORDS: &[&str] = &["a", "b", "true", "false", "0", "1", "no", "yes", "x1", "", "k", "NO", "False", "zz"];
+pub const WORDS: &[&str] = &["a", "b", "true", "false", "0", "1", "no", "yes", "x1", "", "k", "NO", "False", "zz", "00", "0.0", "-0"];
 pub const VARS: &[&str] = &["v", "w", "u", "x", "y", "q"];
 
 #[derive(Clone, Copy)]
